@@ -38,6 +38,8 @@ def gen_cfg(rnd, i=0):
     elif i % 12 == 2:       # TreeStorage + TreeImputer on a drifting stream (alternate subtrees in the adaptive trees)
         cfg.update(explainer=["sage", "pfi"][(i // 12) % 2], storage="tree", imputer=["tree-model", "tree-storage"][(i // 24) % 2], steps=520, drift=True,
                    n_inner=[1, 2][(i // 12) % 2], d=3)
+    elif i % 12 in (0, 6) and cfg["storage"] != "tree" and not cfg["imputer"].startswith("tree"):
+        cfg["cyclic"] = True        # a short recorded list of row objects played round and round (an explained row may already sit in the storage)
     elif i % 12 == 9:       # ... and explainers built entirely from library defaults
         cfg.update(explainer=["sage", "pfi"][(i // 12) % 2], storage="library-default", imputer="joint")
     return cfg
@@ -286,7 +288,9 @@ def scenario_gen(cfg, seed):
         r0 = e.explain_many(xs_, ys_, verbose=False)
         yield hashlib.sha256(repr((sorted((repr(k), fhex(v)) for k, v in r0.items()), len(xs_), len(ys_))).encode()).hexdigest()[:12]
     for t in range(steps):
-        x, y = _STREAMS[skey][t]
+        x, y = _STREAMS[skey][t % 7 if cfg.get("cyclic") else t]      # cyclic: a short recorded list of row OBJECTS played round and round
+        if cfg.get("fresh_copies"):
+            x = dict(x)                                                # ... or equal-valued fresh copies of the same rows
         if cfg.get("checkpoint_at") == t:
             # checkpoint: explainer, storage and imputer are deep-copied TOGETHER (their mutual references preserved) and the stream
             # continues on the copies; the originals are dropped
@@ -336,7 +340,7 @@ def main(run):
                 "float stream, hashing bit patterns (float.hex) of importance values, variances and storage / reservoir contents after "
                 "EVERY call; compared bit-for-bit: (a) two replays in one process, (b) a replay after a junk preamble (other library "
                 "objects created and used, GC churn, sleep) before seeding, (c) replays in fresh subprocesses with the same "
-                "PYTHONHASHSEED with and without preamble, (b3) a twin that continues on a deep copy of explainer + storage + imputer taken mid-stream, (b2) a twin whose model hands out one shared dict object per distinct input instead of fresh equal dicts, (d) sanity: a different seed must change some digest, otherwise the "
+                "PYTHONHASHSEED with and without preamble, (b4) a twin fed equal-valued fresh copies of the recorded observation objects (some streams cycle through a short list of row objects), (b3) a twin that continues on a deep copy of explainer + storage + imputer taken mid-stream, (b2) a twin whose model hands out one shared dict object per distinct input instead of fresh equal dicts, (d) sanity: a different seed must change some digest, otherwise the "
                 "scenario is trivial and not counted; evaluations = replay comparisons; non-trivial = scenarios whose digests depend "
                 "on the seed, distinct by configuration")
     run.assumptions = ["same interpreter configuration includes PYTHONHASHSEED", "seeding precedes construction",
@@ -366,6 +370,7 @@ def main(run):
             c = scenario(cfg, seed)
             other = scenario(cfg, seed + 1) if not cfg.get("drift") else None
             ident = scenario(dict(cfg, output_identity="shared"), seed) if cfg.get("model") not in STATEFUL_MODELS and not cfg.get("drift") else None
+            copies = scenario(dict(cfg, fresh_copies=True), seed) if not cfg.get("drift") and cfg["explainer"] != "batch-many" else None
             ckpt_at = [2, 5, max(1, len(a) // 2)][i % 3]
             ckpt = scenario(dict(cfg, checkpoint_at=ckpt_at), seed) if not cfg.get("drift") else None
             del keep
@@ -380,6 +385,12 @@ def main(run):
                 step = next((i for i, (p, q) in enumerate(zip(a, dgs)) if p != q), None)
                 run.violation("in-process-divergence" if name == "second replay" else "history-dependence",
                               f"{name} diverges at call {step} for cfg {cfg}", replay)
+        if copies is not None:
+            run.ok(kind="fresh-copies-twin")
+            if copies != a:
+                step = next((k_ for k_, (p_, q_) in enumerate(zip(a, copies)) if p_ != q_), None)
+                run.violation("object-identity-dependence", f"cfg {cfg}: feeding equal-valued fresh copies of the observations instead of the recorded dict objects "
+                                                            f"changes the results from call {step} on", replay)
         if ckpt is not None:
             run.ok(kind="checkpoint-twin")
             if ckpt != a:
